@@ -4,9 +4,10 @@ package main
 
 import (
 	"errors"
-	"os"
 	"fmt"
+	"os"
 	"reflect"
+	"runtime"
 	"sort"
 	"strings"
 	"sync"
@@ -175,9 +176,12 @@ func (c *fakeClient) CloseStream(vbID uint16) error {
 func (c *fakeClient) GetCollectionIDs(string, []string) (map[uint32]string, error) {
 	return map[uint32]string{}, nil
 }
-func (c *fakeClient) GetAgentConfigSnapshot() (*gocbcore.ConfigSnapshot, error)    { return c.snap, nil }
-func (c *fakeClient) GetDcpAgentConfigSnapshot() (*gocbcore.ConfigSnapshot, error) { return c.snap, nil }
-func (c *fakeClient) GetAgentQueues() []*models.AgentQueue                        { return nil }
+func (c *fakeClient) GetAgentConfigSnapshot() (*gocbcore.ConfigSnapshot, error) { return c.snap, nil }
+func (c *fakeClient) GetDcpAgentConfigSnapshot() (*gocbcore.ConfigSnapshot, error) {
+	return c.snap, nil
+}
+func (c *fakeClient) GetAgentQueues() []*models.AgentQueue { return nil }
+
 // markEnded: the harness pushed an End for this vBucket (the server-side stream is gone unless it is re-requested)
 func (c *fakeClient) markEnded(vb uint16) {
 	c.mu.Lock()
@@ -210,10 +214,10 @@ type fakeMeta struct {
 	mu      sync.Mutex
 	buf     *obuf
 	store   map[uint16]models.CheckpointDocument
-	next    storeVerdict       // verdict for unpaused saves
-	pause   bool               // micro-step mode: Save blocks until a verdict is sent
-	atStore chan string        // signals entry (with the rendered arguments)
-	verdict chan storeVerdict  // harness → Save
+	next    storeVerdict      // verdict for unpaused saves
+	pause   bool              // micro-step mode: Save blocks until a verdict is sent
+	atStore chan string       // signals entry (with the rendered arguments)
+	verdict chan storeVerdict // harness → Save
 	loadErr error
 	calls   int
 }
@@ -333,8 +337,10 @@ func hexOf(b []byte) string { return fmt.Sprintf("%x", b) }
 func payloadMu(rev uint64, flags, exp uint32, dt uint8, val []byte) string {
 	return fmt.Sprintf("r%d.f%d.e%d.d%d.v%s", rev, flags, exp, dt, hexOf(val))
 }
-func payloadDe(rev uint64, dt uint8, val []byte) string { return fmt.Sprintf("r%d.d%d.v%s", rev, dt, hexOf(val)) }
-func payloadEx(rev uint64) string                        { return fmt.Sprintf("r%d", rev) }
+func payloadDe(rev uint64, dt uint8, val []byte) string {
+	return fmt.Sprintf("r%d.d%d.v%s", rev, dt, hexOf(val))
+}
+func payloadEx(rev uint64) string { return fmt.Sprintf("r%d", rev) }
 
 func (c *fakeConsumer) ConsumeEvent(ctx *models.ListenerContext) {
 	c.mu.Lock()
@@ -399,9 +405,22 @@ func (d *fakeDisc) set(lo, hi int) {
 }
 
 type fakeEH struct {
-	mu   sync.Mutex
-	log  []string
-	hook func(string)
+	mu    sync.Mutex
+	log   []string
+	hook  func(string)
+	waitN int // goroutines inside stream.wait() when the current Close began
+}
+
+// waitGoroutines counts the goroutines of this process that are inside (*stream).wait
+func waitGoroutines() int {
+	buf := make([]byte, 1<<20)
+	for {
+		n := runtime.Stack(buf, true)
+		if n < len(buf) {
+			return strings.Count(string(buf[:n]), "stream.(*stream).wait(")
+		}
+		buf = make([]byte, 2*len(buf))
+	}
 }
 
 func (e *fakeEH) rec(s string) {
@@ -414,12 +433,35 @@ func (e *fakeEH) rec(s string) {
 	}
 }
 func (e *fakeEH) BeforeRebalanceStart() { e.rec("BRS") }
-func (e *fakeEH) AfterRebalanceStart()  { e.rec("ARS") }
-func (e *fakeEH) BeforeRebalanceEnd()   { e.rec("BRE") }
-func (e *fakeEH) AfterRebalanceEnd()    { e.rec("ARE") }
-func (e *fakeEH) BeforeStreamStart()    { e.rec("BSS") }
-func (e *fakeEH) AfterStreamStart()     { e.rec("ASS") }
-func (e *fakeEH) BeforeStreamStop()     { e.rec("BSP") }
+
+// AfterRebalanceStart runs after Close() has handed its token to the wait() goroutine of the closed session and before the
+// re-open is armed: the harness waits here until that goroutine has finished (it must read `balancing` while it is still true).
+// This makes the WaitPrompt assumption of the life-cycle model true in the harness whatever the CPU load is; without it the
+// starved goroutine wakes after the re-open, closes stopCh, and a later wait() closes it again: `close of closed channel`
+// kills the process (finding F16; the micro-schedules that do this on purpose are the stream life-wait).
+func (e *fakeEH) AfterRebalanceStart() {
+	e.rec("ARS")
+	e.mu.Lock()
+	n := e.waitN
+	e.mu.Unlock()
+	if n > 0 {
+		for dl := time.Now().Add(25 * time.Millisecond); waitGoroutines() >= n && time.Now().Before(dl); {
+			time.Sleep(200 * time.Microsecond)
+		}
+	}
+}
+func (e *fakeEH) BeforeRebalanceEnd() { e.rec("BRE") }
+func (e *fakeEH) AfterRebalanceEnd()  { e.rec("ARE") }
+func (e *fakeEH) BeforeStreamStart()  { e.rec("BSS") }
+func (e *fakeEH) AfterStreamStart()   { e.rec("ASS") }
+func (e *fakeEH) BeforeStreamStop() {
+	e.rec("BSP")
+	n := waitGoroutines()
+	e.mu.Lock()
+	e.waitN = n
+	e.mu.Unlock()
+}
+
 // AfterStreamStop is the last callback before Close tests `streamFinishedWithEndEventCh`: yielding here lets the
 // wait() goroutine consume its token first (the WaitPrompt assumption of the life-cycle model; without it the
 // stale-token races of finding F16 make a later wait() close stopCh twice and kill the harness under CPU load)
@@ -438,12 +480,12 @@ func (e *fakeEH) take() []string {
 // ---- Stream proxy with pause points inside checkpoint.Save (GetOffsets / UnmarkDirtyOffsets)
 type proxyStream struct {
 	stream.Stream
-	mu        sync.Mutex
-	pauseNext bool
+	mu          sync.Mutex
+	pauseNext   bool
 	pauseUnmark bool
-	atBegin   chan beginSig // the flag value read + this saver's release channel
-	atUnmark  chan struct{}
-	goUnmark  chan struct{}
+	atBegin     chan beginSig // the flag value read + this saver's release channel
+	atUnmark    chan struct{}
+	goUnmark    chan struct{}
 }
 
 type beginSig struct {
